@@ -7,8 +7,8 @@
    fcIS / fcOS / fcIO / fcOQ = cumulative inbound shipments / outbound shipments / inbound orders / order quantities
    (ghost counters: each is incremented, in the same atomic step, by exactly the amount written to the per-period
    field fIS / fOS / fIO / fOQ). The per-period statements of the property (the C01_per_period theorems below) are proved from them:
-   between consecutive records the counters advance by exactly the per-period state variables (Sim/PerPeriod.v). Multi-product networks (bills of materials) are covered by correspondence-free
-   monitors on the implementation only (see the claim). *)
+   between consecutive records the counters advance by exactly the per-period state variables (Sim/PerPeriod.v). Multi-product networks (bills of materials): the C01_multi_*
+   theorems below, about the Stage-2 model Sim2/Model2.v (tied to the implementation by trajectory correspondence), plus monitors. *)
 From SV Require Import Sim.Model Sim.Inv_book Sim.Inv_pipe Sim.Inv_run Sim.Main Sim.Example.
 From SV Require Import Sim2.State2 Sim2.Model2 Sim2.Inv2b_tac Sim2.Inv2b_book Sim2.Inv2b_pipe Sim2.Inv2b_init Sim2.Main2b.
 
